@@ -180,6 +180,13 @@ class _Matcher:
                     ok = pos == len(cs) - 1 and _test(cs[pos], lambda x: x == 10, lambda e: e == 10)
             elif av == sc.AT_END_STRING:
                 ok = pos == len(cs)
+            elif av in (sc.AT_BOUNDARY, sc.AT_NON_BOUNDARY):
+                def is_word(i):
+                    if i < 0 or i >= len(cs):
+                        return False
+                    return _test(cs[i], lambda x: _cat_c(x, sc.CATEGORY_WORD), lambda e: _cat_z(e, sc.CATEGORY_WORD))
+                b = is_word(pos - 1) != is_word(pos)
+                ok = b if av == sc.AT_BOUNDARY else not b
             else:
                 raise Unsupported(f"AT {av}")
             return self.m(items, i + 1, pos, groups, k) if ok else None
